@@ -16,3 +16,66 @@ pub fn preempt(point: &'static str) {
         f(point)
     }
 }
+
+/// Drop-in replacements for the primitives `SharedState` is made of. Every operation on them is a
+/// named pre-emption point, so that a harness can interleave tasks at the granularity of individual
+/// shared-state operations. They delegate to the real primitives and add nothing else.
+pub mod shared {
+    use super::preempt;
+    use std::sync::atomic::Ordering;
+
+    #[derive(Debug)]
+    pub struct OnceLock<T>(std::sync::OnceLock<T>);
+
+    impl<T> OnceLock<T> {
+        pub const fn new() -> Self {
+            Self(std::sync::OnceLock::new())
+        }
+        pub fn get(&self) -> Option<&T> {
+            preempt("shared.oncelock.get");
+            self.0.get()
+        }
+        pub fn set(&self, value: T) -> Result<(), T> {
+            preempt("shared.oncelock.set");
+            self.0.set(value)
+        }
+        pub fn get_or_init<F: FnOnce() -> T>(&self, f: F) -> &T {
+            preempt("shared.oncelock.get_or_init");
+            self.0.get_or_init(f)
+        }
+    }
+
+    #[derive(Debug)]
+    pub struct AtomicBool(std::sync::atomic::AtomicBool);
+
+    impl AtomicBool {
+        pub const fn new(v: bool) -> Self {
+            Self(std::sync::atomic::AtomicBool::new(v))
+        }
+        pub fn load(&self, order: Ordering) -> bool {
+            preempt("shared.atomicbool.load");
+            self.0.load(order)
+        }
+        pub fn store(&self, v: bool, order: Ordering) {
+            preempt("shared.atomicbool.store");
+            self.0.store(v, order)
+        }
+    }
+
+    #[derive(Debug)]
+    pub struct AtomicWaker(futures_util::task::AtomicWaker);
+
+    impl AtomicWaker {
+        pub const fn new() -> Self {
+            Self(futures_util::task::AtomicWaker::new())
+        }
+        pub fn register(&self, waker: &std::task::Waker) {
+            preempt("shared.atomicwaker.register");
+            self.0.register(waker)
+        }
+        pub fn wake(&self) {
+            preempt("shared.atomicwaker.wake");
+            self.0.wake()
+        }
+    }
+}
